@@ -1001,6 +1001,8 @@ class Container:
             A new plate and a new container, both modified.
         """
 
+        Unit.parse_quantity(quantity)  # (refused here if it is not one: a selection of no wells never looks at it)
+
         def helper_func(elem):
             """ Moves volume from elem to to_array[0]"""
             elem, to_array[0] = Container.transfer(elem, to_array[0], quantity)
@@ -3270,6 +3272,7 @@ class PlateSlicer(Slicer):
 
     @staticmethod
     def _transfer(frm: Container | PlateSlicer, to: PlateSlicer, quantity):
+        Unit.parse_quantity(quantity)  # (refused here if it is not one: a selection of no wells never looks at it)
         if isinstance(frm, Container):
             to = copy(to)
             to.plate = deepcopy(to.plate)
@@ -3566,6 +3569,7 @@ class PlateSlicer(Slicer):
         Returns: New Plate with desired final `quantity` in each well.
 
         """
+        Unit.parse_quantity(quantity)  # (refused here if it is not one: a selection of no wells never looks at it)
         new_slice = copy(self)
         new_slice.plate = deepcopy(self.plate)
         new_slice.apply(lambda elem: elem.fill_to(solvent, quantity))
